@@ -4,7 +4,7 @@ TARGET = dict(
           "non-trivial = >=2 fields incl. a 32-bit field or one straddling the 32-bit cache, written into a buffer that is exactly full or too small; "
           "distinct by hash of (fields, buffer size, segmentation, bit offset)"),
     assumptions=["independent MSB-first reference packer in the harness", "ASan red zones around exact-size buffers"],
-    execs=[dict(name="bits", harness="harness/C18_bits.c", repo=LIBUPIPE, engine=MEMFIX)],
+    execs=[dict(name="bits", harness="harness/C18_bits.c", repo=LIBUPIPE, engine=MEMFIX, fuzz=dict(quick=(4, 8), thorough=(8, 60)))],
     quick=dict(cases=60000, budget=40), thorough=dict(cases=1500000, budget=400),
 )
 META = dict(
